@@ -122,6 +122,25 @@ func c08Run(sc *C08Scenario) (*nodeViolation, map[string]bool) {
 			model[key]++
 		}
 	}
+	// white-box: the node's subscription list must be exactly the model multiset
+	node.pushDataLock.Lock()
+	have := map[[20]byte]int{}
+	for _, h := range node.pushDataHashes {
+		var k [20]byte
+		copy(k[:], h[:])
+		have[k]++
+	}
+	node.pushDataLock.Unlock()
+	for k, n := range model {
+		if have[k] != n {
+			return &nodeViolation{"C08/subscriptions/multiset", fmt.Sprintf("after the subscription history the node holds %d occurrences of a value the model holds %d times", have[k], n)}, flags
+		}
+	}
+	for k, n := range have {
+		if model[k] != n {
+			return &nodeViolation{"C08/subscriptions/multiset", fmt.Sprintf("the node holds %d occurrences of value %x which the model holds %d times", n, k[:4], model[k])}, flags
+		}
+	}
 	contractsOn := false
 	switch sc.Contracts {
 	case 1:
@@ -203,7 +222,10 @@ func genC08Script(t *rapid.T, label string, flags map[string]bool) []byte {
 	for i := 0; i < n; i++ {
 		// data to push
 		data := func() []byte {
-			switch rapid.IntRange(0, 6).Draw(t, label+"-dk") {
+			switch rapid.IntRange(0, 7).Draw(t, label+"-dk") {
+			case 7:
+				// degenerate 20-byte values nobody subscribed to
+				return rapid.SampledFrom([][]byte{make([]byte, 20), {0xff, 0xff, 0xff, 0xff, 0xff, 0xff, 0xff, 0xff, 0xff, 0xff, 0xff, 0xff, 0xff, 0xff, 0xff, 0xff, 0xff, 0xff, 0xff, 0xff}}).Draw(t, label+"-deg")
 			case 0, 1:
 				flags["universe-element"] = true
 				return subUniverse[rapid.IntRange(0, len(subUniverse)-1).Draw(t, label+"-u")]
